@@ -3,7 +3,8 @@ package eng
 import (
 	"fmt"
 	"runtime"
-	"sync/atomic"
+	"strings"
+	"time"
 	"unsafe"
 
 	"github.com/mlange-42/ark/ecs"
@@ -1243,16 +1244,54 @@ var finDrv *Drv
 // skipMisuse is the panic value used when a misuse row is not applicable in the current state.
 type skipMisuse struct{}
 
-// completes runs fn in a goroutine and reports whether it finished. A call that blocks for ever (a mutex left locked) is
-// told from a slow one by scheduling steps, not by wall-clock time: fn needs no time slice worth mentioning.
+// completes runs fn in a goroutine of its own and reports whether it finished. "Blocks for ever" is not decided by time:
+// the verdict is false only when the goroutine is seen *blocked on a mutex or semaphore* while the calling goroutine - the
+// only other one that uses the library at these points - is waiting here, so nobody can ever release it. A goroutine that
+// is merely slow (runnable, running, in a syscall) is waited for, however long that takes; the sleeps only pace the polling.
 func completes(fn func()) bool {
-	var done atomic.Bool
+	done := make(chan struct{})
 	go func() {
-		defer done.Store(true)
-		fn()
+		defer close(done)
+		completesBody(fn)
 	}()
-	for i := 0; i < 2_000_000 && !done.Load(); i++ {
-		runtime.Gosched()
+	buf := make([]byte, 1<<20)
+	seen := 0
+	for wait := time.Millisecond; ; {
+		select {
+		case <-done:
+			return true
+		case <-time.After(wait):
+		}
+		if wait < 200*time.Millisecond {
+			wait *= 2
+		}
+		n := runtime.Stack(buf, true)
+		blocked := false
+		for _, g := range strings.Split(string(buf[:n]), "\n\n") {
+			if !strings.Contains(g, "eng.completesBody") {
+				continue
+			}
+			head := g
+			if i := strings.IndexByte(g, '\n'); i >= 0 {
+				head = g[:i]
+			}
+			// the wait reason of a goroutine parked in sync.Mutex / sync.RWMutex (other semaphore waits - a goroutine that
+			// wants to start a GC cycle while this one has stopped the world for the dump, for example - pass by themselves)
+			if (strings.Contains(head, "[sync.Mutex.Lock") || strings.Contains(head, "[sync.RWMutex.")) && strings.Contains(g, "sync.(*") {
+				blocked = true
+			}
+		}
+		if !blocked {
+			seen = 0
+			continue
+		}
+		if seen++; seen >= 3 { // seen parked on the mutex in three consecutive dumps
+			return false
+		}
 	}
-	return done.Load()
 }
+
+// completesBody marks the goroutine started by completes in stack dumps.
+//
+//go:noinline
+func completesBody(fn func()) { fn() }
